@@ -55,8 +55,8 @@ Proof.
     apply Forall_rev. constructor; assumption.
   - inversion Hw as [|? ? Hw0 Hrest]; subst.
     destruct (size <? blen word0) eqn:Es.
-    + pose proof (take_bytes_app size word0) as Happ.
-      destruct (take_bytes size word0) as [word after]. cbn [fst snd] in Happ.
+    + pose proof (split_word_app size word0) as Happ.
+      destruct (split_word size word0) as [word after]. cbn [fst snd] in Happ.
       rewrite <- Happ, no_fmt_app in Hw0. apply andb_true_iff in Hw0 as [Hb Ha].
       destruct word as [|w0 word']; [discriminate|]. cbn [andb] in H.
       destruct (blen cur + blen (w0 :: word') <=? size).
